@@ -72,6 +72,8 @@ type Program struct {
 	extConsts     map[string]bool
 	extErrs       map[string]bool
 	provedDeps    map[string]bool
+	inlined       map[string]bool
+	initBig       map[string]string // reference (numeral) -> value given by big.NewInt in the package initialiser
 	localsTable   map[string]map[string]localType
 }
 
@@ -79,7 +81,7 @@ func LoadProgram(repo string) (*Program, error) {
 	p := &Program{RepoDir: repo, initVals: map[*ssa.Global]SV{}, onceIDs: map[*ssa.Global]int{},
 		touchCache: map[*ssa.Function]map[string]bool{}, touchGlobals: map[*ssa.Function]map[*ssa.Global]bool{},
 		usedDeps: map[string]bool{}, usedContracts: map[string]bool{}, preludeCache: map[bool]string{},
-		verifFiles: map[string]bool{}, extConsts: map[string]bool{}, extErrs: map[string]bool{}, provedDeps: map[string]bool{}, lits: map[string]string{}}
+		verifFiles: map[string]bool{}, extConsts: map[string]bool{}, extErrs: map[string]bool{}, provedDeps: map[string]bool{}, inlined: map[string]bool{}, initBig: map[string]string{}, lits: map[string]string{}}
 	p.Fset = token.NewFileSet()
 	cfg := &packages.Config{
 		Mode:       packages.LoadAllSyntax,
@@ -463,6 +465,37 @@ func (p *Program) recordInit(ex *Exec, st *State) {
 		}
 	}
 	p.preludeCache = map[bool]string{}
+	// every package-level *big.Int that init sets with big.NewInt(c) and that is never written
+	// elsewhere (discipline scan) keeps that value: an automatic global invariant, by name of
+	// the variable as it is called in the tree under test
+	var gnames []string
+	byG := map[string]string{}
+	for g, sv := range p.initVals {
+		if g.Pkg == p.Main && sv.K == KScalar && classify(g.Type().(*types.Pointer).Elem()).What == "bigint" {
+			if v, ok := p.initBig[sv.T.S]; ok {
+				gnames = append(gnames, g.Name())
+				byG[g.Name()] = v
+			}
+		}
+	}
+	sort.Strings(gnames)
+	for _, n := range gnames {
+		src := fmt.Sprintf("val(%s) == %s", n, strings.Trim(byG[n], "()- "))
+		if strings.HasPrefix(byG[n], "(-") {
+			src = fmt.Sprintf("val(%s) == 0-%s", n, strings.Trim(byG[n], "()- "))
+		}
+		if e, err := parseExprSrc(src); err == nil {
+			dup := false
+			for _, inv := range p.Contracts.Invariants {
+				if inv.Label == "auto-"+n {
+					dup = true
+				}
+			}
+			if !dup {
+				p.Contracts.Invariants = append(p.Contracts.Invariants, &Clause{Kind: "invariant", Label: "auto-" + n, Src: src, Expr: e})
+			}
+		}
+	}
 	// with a concrete allocation counter the values stored by init are closed
 	// terms; what remains are the heap-resident facts, proved here once as
 	// "init establishes the global invariants".
